@@ -11,12 +11,16 @@ def main(tier, seed):
               "skip_tagged_fields, the generator-reply types) is fed: every byte string of length <= 2 (thorough: 3), random "
               "strings <= 64 bytes, every truncation and single-byte corruption of valid encodings, duplicate keys, lying size "
               "prefixes 2^k-1/2^k in every width. Oracle: strict reference decoder (Ok/Err agreement, value, bytes consumed), "
-              "catch_unwind, every error rendered, per-decode CPU time and peak-RSS growth. distinct_nontrivial = exhaustive "
+              "catch_unwind, every error rendered, per-decode CPU time and peak-RSS growth. Also: ASCII strings of every length 0..96 "
+              "with each position replaced by each kind of invalid byte / a valid two-byte character; thorough tier: the same "
+              "differential oracle inside a libFuzzer + AddressSanitizer target for a fixed time on all cores (counters fuzz.*), "
+              "artifacts re-judged by the uninstrumented harness. distinct_nontrivial = exhaustive "
               "and lying-prefix inputs on which the reference accepts or rejects for a reason other than plain end-of-buffer"),
         required={"native.ok_agree": 1000, "native.err_agree": 1000, "native.reject_BadBool": 10, "native.reject_BadUtf8": 10,
                   "native.reject_OutOfRange": 10, "native.reject_DuplicateKey": 10, "native.reject_BadLevel": 10,
                   "native.cost_measured": 500, "native.truncations": 1000, "native.corruptions": 1000,
-                  "native.lying_prefix_cases": 1000, "asan.clean_runs": 1, "miri.clean_shards": 16},
+                  "native.lying_prefix_cases": 1000, "asan.clean_runs": 1, "miri.clean_shards": 16, "native.string_position_cases": 50000,
+                  **({"fuzz.executions": 500000} if tier == "thorough" else {})},
         assumptions=["non-minimal var-int encodings are accepted (the statement only rejects out-of-range values)",
                      "cost clause decided on resident memory (VmHWM growth <= 64 MiB) and thread CPU time (<= 2 s) for inputs "
                      "<= 64 bytes; untouched virtual reservations are not counted",
